@@ -551,9 +551,22 @@ func hybridV3(r *ev.Run, P props, st *enumStats, cs *oracle.V3Case, fobj *v3.Env
 	}
 }
 
-// dpathV3 decodes the full vector of the case with the real environmental decoder and applies P.
+// dpathOmit alternates between writing Not Defined metrics as X and omitting them.
+var dpathOmit int64
+
+// dpathV3 decodes the vector of the case with the real environmental decoder and applies P.
+// Every other call omits the temporal/environmental metrics that are Not Defined instead of
+// writing them as X (the two must be indistinguishable).
 func dpathV3(r *ev.Run, P props, st *enumStats, cs *oracle.V3Case) {
 	s, tok := vecV3(cs)
+	if atomic.AddInt64(&dpathOmit, 1)%2 == 0 {
+		for _, m := range spec.V3 {
+			if m.Level > 0 && tok[m.Name] == "X" {
+				delete(tok, m.Name)
+			}
+		}
+		s = canonicalWritten(3, 2, spec.V3Versions[cs.Ver], tok)
+	}
 	c := &dcase{ver: 3, level: 2, s: s, tok: tok, verLabel: spec.V3Versions[cs.Ver]}
 	evalDecoded(r, P, st, c)
 }
@@ -595,6 +608,11 @@ func init() {
 		st := newStats()
 		P := noScore
 		P.scoreLevel = 2
+		r.Phase("base_and_temporal_only_vectors_at_environmental_decoder", func() {
+			// no environmental token written at all: every Modified metric falls back to its base metric
+			enumV3Base(r, props{scoreLevel: 2}, st)
+			enumV3Temporal(r, props{scoreLevel: 2}, st, []int{2}, []map[string]string{{}})
+		})
 		r.Phase("effective_x_temporal", func() { envEffective(r, P, st, true) })
 		r.Phase("fallback_lattices", func() {
 			if thorough {
